@@ -484,6 +484,22 @@ fn forced_case(case: u64, rng: &mut Rng, rep: &mut Report) {
 /// the old (killed) segment updater AFTER the replacement writer has committed: nothing the old
 /// updater still does may replace the newer commit - successive reloads never move back.
 fn stale_updater_case(case: u64, rng: &mut Rng, rep: &mut Report) {
+    if rng.chance(1, 4) {
+        // the shared schedule with the old updater parked INSIDE its save_metas (after the
+        // is_alive check): a fresh reader must show the successor's commit afterwards
+        rep.eval();
+        let out = tvmon::sched::stale_merge_schedule_mode(rng, 2);
+        for c in &out.counters {
+            rep.count(c, 1);
+        }
+        for (sig, d) in out.problems {
+            rep.violation(format!("stale-updater:{sig}"), json!({"case": case, "shape": out.shape, "detail": d}));
+        }
+        if out.forced {
+            rep.nontrivial(format!("stale-updater:{}", out.shape));
+        }
+        return;
+    }
     let cfg = ExecCfg { threads: 1, merge_policy: false, sort: None, budget_per_thread: 15_000_000 };
     let mon = MonDir::new(MonCfg { monitors: true, ..Default::default() });
     let mut ex = match Exec::create(Box::new(mon.clone()), cfg, Some(mon.clone())) {
